@@ -20,13 +20,18 @@ func init() {
 		Assumptions: []string{"lists longer than 3, and parameter values outside the alphabets, are not covered; calls predicted to return more than 600 IDs are skipped and counted", "reference: ref.AltKeyToZ, ref.ChangeZoom"},
 		Phases: func(tier string) []engine.Phase {
 			zs := zooms(tier)
+			es := zs
 			offs := []int64{0, 1, -1, 1 << 10, 1 << 24}
+			if tier != "thorough" {
+				es = []int64{0, 16, 24, 25, 26, 35}
+				offs = []int64{0, 1, -1, 1 << 24}
+			}
 			return []engine.Phase{
 				{Name: "tile-lists", ShardDepth: 3, Bounds: engine.Bounds{InputDev: -1},
-					Rule: "full product tile vZoom x E x outV x z class x O x hZoom class x list shape {[A],[A,A],[A,B(z+1)],[A,C(other footprint)],[A,B,C],[bad,A],[A,bad],[A,bad,B],[A,A at hZoom+1],[A at vZoom+1,A]}; footprint unchanged, all at outV, per-tile indices = ConvertAltitudekeyToMinMaxZ range and contain the exact interval range, duplicate-free, error => nil result; spatial variant = union of expansions; non-trivial = distinct cases with >= 2 tiles and >= 2 indices per tile",
+					Rule: "full product tile vZoom x E x outV x z class x O x hZoom class x list shape {[A],[A,A],[A,B(z+1)],[A,C(other footprint)],[A,B,C],[bad,A],[A,bad],[A,bad,B],[A,A at hZoom+1],[A at vZoom+1,A],[A,alias,A],[A,alias,B],[alias,A,alias]}; footprint unchanged, all at outV, per-tile indices = ConvertAltitudekeyToMinMaxZ range and contain the exact interval range, duplicate-free, error => nil result; spatial variant = union of expansions; non-trivial = distinct cases with >= 2 tiles and >= 2 indices per tile",
 					Body: func(c *engine.Ctx) {
 						vz := zs[c.In("vZoom", len(zs))]
-						e := zs[c.In("E", len(zs))]
+						e := es[c.In("E", len(es))]
 						outV := zs[c.In("outV", len(zs))]
 						n := int64(1) << uint(vz)
 						zcl := dedupeI([]int64{0, 1, n / 2, n - 1})
@@ -37,7 +42,7 @@ func init() {
 						if hz < 0 || hz > 35 {
 							c.Skip("hzoom-out-of-range")
 						}
-						shape := c.In("shape", 10)
+						shape := c.In("shape", 13)
 						hx := alpha.HIdxSmall(hz)
 						x, y := hx[len(hx)-1], hx[0]
 						type tl struct{ h, x, y, v, z int64 }
@@ -71,6 +76,19 @@ func init() {
 								c.Skip("alias-zoom-out-of-range")
 							}
 							tiles = []tl{A, {hz + 1, x, y, vz, z}}
+						case 10, 11, 12: // a tile with the same numbers at another horizontal zoom between two equal / overlapping tiles
+							if hz+1 > 35 {
+								c.Skip("alias-zoom-out-of-range")
+							}
+							al := tl{hz + 1, x, y, vz, z}
+							switch shape {
+							case 10:
+								tiles = []tl{A, al, A}
+							case 11:
+								tiles = []tl{A, al, B}
+							case 12:
+								tiles = []tl{al, A, al}
+							}
 						case 9: // same numbers at the next vertical zoom
 							if vz+1 > 35 {
 								c.Skip("alias-zoom-out-of-range")
